@@ -781,6 +781,33 @@ var lock3Exempt = map[string]string{
 	"(*collection).Close":                 "stopCh is closed and the cache dropped in Close's first critical section; no snapshot can be cached afterwards (CL-1)",
 }
 
+// onlyCalledFrom: every call chain into f (up to depth levels) starts in one
+// and the same function of the set; returns that function's name or "".
+func onlyCalledFrom(c *Ctx, f *ssa.Function, set map[string]string, depth int) string {
+	if depth == 0 || isExportedRoot(f) {
+		return ""
+	}
+	sites := c.Callers(f)
+	if len(sites) == 0 {
+		return ""
+	}
+	owner := ""
+	for _, s := range sites {
+		if _, isGo := s.Instr.(*ssa.Go); isGo {
+			return ""
+		}
+		name := c.fname(s.Caller)
+		if _, ok := set[name]; !ok {
+			name = onlyCalledFrom(c, s.Caller, set, depth-1)
+		}
+		if name == "" || (owner != "" && owner != name) {
+			return ""
+		}
+		owner = name
+	}
+	return owner
+}
+
 func ruleLock3(c *Ctx) []*Ob {
 	o := newObs(c, "LOCK-3")
 	inval := c.Fn("(*collection).invalidateLatestSnapshotLOCKED")
@@ -796,6 +823,10 @@ func ruleLock3(c *Ctx) []*Ob {
 			construct := "store " + a.Field.Name() + ": cached snapshot invalidated in the same critical section"
 			if why, ok := lock3Exempt[fn]; ok {
 				o.trivial(fn, construct, c.instrPos(a.Instr), "table exception: "+why)
+				continue
+			}
+			if owner := onlyCalledFrom(c, f, lock3Exempt, 3); owner != "" {
+				o.trivial(fn, construct, c.instrPos(a.Instr), "table exception (helper called only from "+owner+"): "+lock3Exempt[owner])
 				continue
 			}
 			// starts: function entry and the point after every boundary
